@@ -1199,6 +1199,24 @@ impl RoomAuthorisations {
             return false;
         }
 
+        //a version covered by a deletion record stored for this room is not accepted again
+        //when the record was made by the author of that version, or by a user allowed to delete the rows of others
+        for deletion in &node_to_insert.deletions {
+            if deletion.room_id.eq(&room_id) && node.mdate <= deletion.mdate {
+                let deleted_by_author = deletion.verifying_key.eq(&node.verifying_key);
+                if deleted_by_author
+                    || room.can(
+                        &deletion.verifying_key,
+                        entity_name,
+                        deletion.deletion_date,
+                        &RightType::MutateAll,
+                    )
+                {
+                    return false;
+                }
+            }
+        }
+
         // for edge in &node_to_insert.edges {
         //     let required_right = match &node_to_insert.old_verifying_key {
         //         Some(old_key) => match old_key.eq(&edge.verifying_key) {
